@@ -300,6 +300,26 @@ func c04Run(c *fw.Ctx) {
 			}
 		}
 	}
+	// (g) reply length ladder: a bulk reply of EVERY length 0..1100 and around every power of ten
+	// and of two up to 10^5 (the length header is the one part of a frame computed from the
+	// payload), alone, as an array element and from the example store
+	lens := map[int]bool{}
+	for n := 0; n <= 1100; n++ {
+		lens[n] = true
+	}
+	for _, base := range []int{4096, 8192, 9999, 10000, 16384, 32768, 65536, 99999, 100000} {
+		for d := -1; d <= 1; d++ {
+			lens[base+d] = true
+		}
+	}
+	for _, n := range sortedInts(lens) {
+		v := strings.Repeat("x", n)
+		run(c04Case{Kind: "toplevel", Input: concat(grammar.Encode([]string{"ECHO", v}), ping), NReq: 2}, "length-ladder:ECHO")
+		run(c04Case{Kind: "handler", Input: concat(grammar.Encode([]string{"GET", "k"}), grammar.Encode([]string{"SMEMBERS", "s"}), ping), NReq: 3, Result: "array", Text: v, Method: "GET"}, "length-ladder:handler")
+		if n <= 1100 {
+			run(c04Case{Kind: "store", Setup: [][]byte{grammar.Encode([]string{"SET", "k", v}), grammar.Encode([]string{"RPUSH", "l", v, "y"})}, Input: concat(grammar.Encode([]string{"GET", "k"}), grammar.Encode([]string{"LRANGE", "l", "0", "-1"}), grammar.Encode([]string{"MGET", "k", "k"}), ping), NReq: 4}, "length-ladder:store")
+		}
+	}
 	// (f) deadlines: a client configures an idle timeout the way Redis clients do (CONFIG SET
 	// timeout) and then reads slowly; a reply write that is cut by an expiring deadline must not
 	// be followed by further frames (injected only if the server really armed a write deadline)
